@@ -187,7 +187,7 @@ def tree_search(repo, prop, tier, seed=1):
         if j.get("mismatch"):
             res.update({"status": "mismatch", "mismatch": j})
         elif "scenarios" in j:
-            res.update({"status": "no_mismatch", "scenarios": j["scenarios"]})
+            res.update({"status": "no_mismatch", "scenarios": j["scenarios"], "sample": j.get("sample")})
         else:
             res.update({"status": "not_run", "reason": "driver crashed: " + p.stderr.decode("utf8", "replace")[-300:]})
         return res
@@ -285,7 +285,7 @@ def alloc_search(repo, prop, tier, seed=1):
         if j.get("mismatch"):
             res.update({"status": "mismatch", "mismatch": j})
         elif "scenarios" in j:
-            res.update({"status": "no_mismatch", "scenarios": j["scenarios"]})
+            res.update({"status": "no_mismatch", "scenarios": j["scenarios"], "sample": j.get("sample")})
         else:
             res.update({"status": "not_run", "reason": "driver crashed: " + p.stderr.decode("utf8", "replace")[-300:]})
         return res
@@ -325,7 +325,7 @@ def topo_search(repo, prop, tier, seed=1):
         if j.get("mismatch"):
             res.update({"status": "mismatch", "mismatch": j})
         elif "scenarios" in j:
-            res.update({"status": "no_mismatch", "scenarios": j["scenarios"]})
+            res.update({"status": "no_mismatch", "scenarios": j["scenarios"], "sample": j.get("sample")})
         else:
             err = p.stderr.decode("utf8", "replace")
             pan = [l for l in err.splitlines() if "panicked at" in l]
@@ -351,7 +351,7 @@ def timer_search(repo, prop, tier, seed=1):
     fcntl.flock(lockf, fcntl.LOCK_EX)
     try:
         count = 300000 if tier == "thorough" else 20000
-        res = {"what": "bounded replay of C05 on the real `des` crate: %d seeded random scenarios of 1..2 modules x 1..3 tasks, each task a program of 1..5 timer operations (sleep, sleep_until incl. elapsed deadlines, timeout around a sleep and around a never-ready future, a sleep polled once and dropped, a pinned sleep that is reset, interval with Burst / Delay / Skip and late ticks); all durations are multiples of 10 ms in 0..50 ms so timers share deadlines. Every completion is logged with SimTime::now() and compared with the deadline the property prescribes; results of timeout (Ok iff inner <= deadline) and the values returned by Interval::tick are compared too; the run must return Ok with every task finished and end at the last deadline" % count,
+        res = {"what": "bounded replay of C05 on the real `des` crate: %d seeded random scenarios of 1..2 modules x 1..3 tasks, each task a program of 1..5 timer operations (sleep, sleep_until incl. elapsed deadlines, timeout around a sleep and around a never-ready future, a sleep polled once and dropped, a pinned sleep that is reset, interval with Burst / Delay / Skip and late ticks); all durations are multiples of 10 ms in 0..50 ms so timers share deadlines. Every completion is logged with SimTime::now() and compared with the deadline the property prescribes; results of timeout (Ok iff inner <= deadline) and the values returned by Interval::tick are compared too; 0..3 self-messages per module (activations that are not timer wake-ups) and debounce tasks whose sleep every message resets; the run must return Ok with every task finished and must not end before the last deadline" % count,
                "bound": "%d random scenarios; seed %d" % (count, seed), "labelled": "bounded", "counts_as_proof": False}
         exe, err = _build_rt(repo, "timer_driver")
         if exe is None:
@@ -372,7 +372,7 @@ def timer_search(repo, prop, tier, seed=1):
         if j.get("mismatch"):
             res.update({"status": "mismatch", "mismatch": j})
         elif "scenarios" in j:
-            res.update({"status": "no_mismatch", "scenarios": j["scenarios"]})
+            res.update({"status": "no_mismatch", "scenarios": j["scenarios"], "sample": j.get("sample")})
         else:
             res.update({"status": "not_run", "reason": "driver crashed: " + p.stderr.decode("utf8", "replace")[-300:]})
         return res
